@@ -1,6 +1,8 @@
 CLAIMED = {
+ "C19": {"text": "Reactive DCC step/band/Annex-A-row clauses, adaptive DCC clause 5.4 formula and bounds, and gate-keeper B.1/B.2 clauses are postconditions on the real DccReactive/DccAdaptive/GateKeeper methods; convergence within four evaluations, >= 25 ms spacing and <= 1 s closure are lemmas over those contracts.",
+         "note": "floats treated as reals; Annex A table rows transcribed in contracts/spec_dcc.py are trusted; KF-C19-1 (1 ns tolerance in GateKeeper.is_open, pinned by a repository test) excluded as a region."},
  "C20": {"text": "Every clause of the lifetime quantisation (never exceeds, largest representable, non-zero from 50 ms, 6-bit multiplier) is a postcondition on the real LT.set_value_in_millis, discharged for all integers by z3; hop-limit clauses are postconditions on the source operations.",
          "note": "floats treated as reals in value/unit divisions; z3/cvc5 sound; pyvc's encoding of Python semantics (DESIGN §1.3). Known findings KF-C20-1/2 (>= 1 000 000 ms, pinned by a repository test) are excluded as regions."},
 }
 _PENDING = "contracts for this property are not built yet in this round (engine pyvc exists; see DESIGN.md §5 for the planned contracts)"
-NOT_APPLICABLE = {p: _PENDING for p in ["C01","C02","C03","C04","C05","C06","C07","C08","C09","C10","C11","C12","C13","C14","C15","C16","C17","C18","C19"]}
+NOT_APPLICABLE = {p: _PENDING for p in ["C01","C02","C03","C04","C05","C06","C07","C08","C09","C10","C11","C12","C13","C14","C15","C16","C17","C18"]}
